@@ -106,6 +106,14 @@ func GenOps(r *vh.Rand, n, m int, crash bool) []string {
 	for i := 0; i < m; i++ {
 		var op string
 		x := r.Intn(100)
+		if r.Chance(1, 12) { // autoSync off/on, explicit Flush
+			op := vh.Pick(r, []string{"autosync 0", "autosync 0", "autosync 1", "flush", "flush"})
+			if crash {
+				op = "crashall " + op
+			}
+			ops = append(ops, op)
+			continue
+		}
 		if i < 2 && r.Chance(3, 4) {
 			x = r.Intn(54) // start with pins
 		}
